@@ -9,7 +9,7 @@ From XV Require Import model.Sched.
 Import ListNotations.
 Open Scope Z_scope.
 
-Inductive opk := OLockIn | OLockOut | OProc | ODoneH.
+Inductive opk := OLockIn | OLockOut | OProc | ODoneH | OAdopt.
 Inductive action := ASubmit (j : nat) | ADeliver (ops : list (nat * opk)) | AWait.
 Inductive wobs := ONone | OBlocked | OReturned | ORaised.
 
@@ -25,7 +25,7 @@ Record case := { c_w : workload; c_fx : fixes; c_trace : list (action * snap) }.
 Definition op_matches (o : opk) (p : pcT) : bool :=
   match o, p with
   | OLockIn, PExt ALockIn | OLockOut, PExt ALockOutAbort | OLockOut, PExt ALockOutRun
-  | OProc, PExt AProc | ODoneH, PExt ADoneH => true
+  | OProc, PExt AProc | ODoneH, PExt ADoneH | OAdopt, PExt AAdopt => true
   | _, _ => false
   end.
 
